@@ -1,2 +1,2 @@
 from harness.corecheck import make
-MODULE = make("C19", ["CircusProofs/Props/C19.lean"], ["CircusProofs/Lemmas/Core.lean"])
+MODULE = make("C19", ["CircusProofs/Props/C19.lean"], ["CircusProofs/Core/Pres.lean", "CircusProofs/Core/Init.lean"])
